@@ -481,6 +481,8 @@ X86_LINES = [
     "foo %rax, %rbx", "vfrobnicate %ymm0, %ymm1, %ymm2", "xyzzyq 8(%rax), %rbx",
     # control flow
     "jne .L1", "ja .L10", "jb .L2",
+    # flag readers (the ISA database knows their flag sources: -f / --consider-flag-deps changes the graph)
+    "cmovne %rax, %rbx", "cmovb %rcx, %rdx", "sbbq %rax, %rbx", "cmovge %rbx, %rcx", "cmpq %rcx, %rdx", "testq %rax, %rax",
 ]
 X86_OTHER = [".L1:", ".L10:", "# a comment", ".p2align 4,,10", ".loc 1 15 3", "  # indented comment"]
 A64_LINES = [
@@ -494,6 +496,8 @@ A64_LINES = [
     "fmadd d0, d1, d2, d3", "madd x0, x1, x2, x3", "eor v0.16b, v0.16b, v0.16b",
     "frob x0, x1", "vzzz v0.2d, v1.2d", "quux x3, [x4]",
     "b.ne .L2", "bne .LBB0_32", "b.lt .L3",
+    # flag readers
+    "csel x0, x1, x2, ne", "cset w3, lo", "adcs x1, x2, x3", "csinc x4, x5, x6, ge", "cmp x9, x10", "tst x1, x2",
 ]
 A64_OTHER = [".L2:", ".LBB0_32:", "// a comment", ".p2align 4", "  // indented"]
 
